@@ -7,6 +7,18 @@ HERE = os.path.dirname(os.path.abspath(__file__))
 
 # property -> (technique, level text, level note, design ref)
 CLAIMED = {
+    "C06": (
+        "runtime metamorphic monitor over render-call histories: bit-exact comparison of final colour/depth buffers across permutations, ordered partitions into separate calls and all depth_sort settings, anchored on a per-pixel nearest-of-solo-layers model; painter clause checked on scenes with disjoint depth slabs",
+        "For each scene of 2..10 overlapping, interpenetrating, nested, coplanar-offset and clipped triangles (buffers ≤ 48 px) 20..40 histories are rendered — all permutations for n ≤ 4 (24 random ones otherwise), random ordered partitions into separate render() calls, every depth_sort setting — and every final buffer must equal, bit for bit, the image whose every pixel holds the nearest fragment among the solo layers (exact ties excluded and counted). Scenes with disjoint depth slabs (through the library's perspective matrix, partly clipped) must render identically with depth test off + BackToFront and with the depth buffer.",
+        "Solo renders of the same rasteriser serve as layers (their correctness is C01/C04/C05's subject); pixels one triangle's own clip fan draws twice (inside C04's band) are excluded and counted.",
+        "DESIGN.md §5 C06",
+    ),
+    "C07": (
+        "runtime reference-model monitor: sequential per-pixel model of the documented fragment pipeline folded over solo layers and compared bit-for-bit under every flag combination; orientation oracle sign(det[x;y;w]) for culling; ctx.stats and shader-invocation counters compared with counts derived from the public clip API, the orientation oracle and the model",
+        "Masks/stats: scenes of 1..5 triangles × {Framebuf, colour-only} × depth_test {None, Less, Equal, Greater} × color_write × depth_write × {discarding, plain} shader × {one, two calls on one Context}: both buffers must equal the model's prediction exactly (colour untouched when masked, depth untouched when masked, every fragment passes with the test off, None from the shader writes nothing) and calls, prims.i/o, verts.i/o, frags.i/o and shader invocations must equal what happened. Culling: each triangle in both vertex orders under None/Back/Front — drawn exactly as without culling or not at all, as decided by an orientation oracle that never looks at screen coordinates; without culling both orders give the same image away from edge pixels.",
+        "Layers are solo renders of the same rasteriser; near-edge-on triangles (|det| < 1e-4·scale³) are skipped; fragment counts are not compared in scenes with own-fan overdraw.",
+        "DESIGN.md §5 C07",
+    ),
     "C01": (
         "runtime reference-model monitor on final colour/depth buffers: the interpolated attribute is smuggled bit-exactly through the colour word; per-pixel f64 ideal-image oracle β = M⁻¹(X,Y,1) (no clipping, no scan conversion) with the property's own 0.02 px / 0.1 % ambiguity mask; differential check of the Batch and Camera front doors against render()",
         "Scenes of 1..6 (thorough 1..12) clip-space triangles (w of either sign, every subset of planes crossed, exactly-on-plane values, two decades of magnitude, also view space through the library projections), seven attribute types (each component rendered), four target kinds, random viewports inside windows inside buffers ≤ 64x64, prior frames with sentinel colours and zero or random depths. Every unambiguous pixel is judged: inside the visible part of the nearest triangle ⇒ attribute within 0.5 % of range and reciprocal depth within 0.2 %; outside all visible parts, occluded by the prior depth, or outside the viewport ⇒ bit-for-bit unchanged. Batch::render and Camera::render must equal render() bit-for-bit and the camera image is judged by the same oracle.",
